@@ -14,7 +14,8 @@ import cert as C
 import recipes as R
 from props.c13 import monic, distribute
 
-THEOREMS = ["Adc.wickTerm_sound", "Adc.wickS_sound", "Adc.checkEquiv_sound", "Adc.norm_factor_series",
+THEOREMS = ["Adc.wickTerm_sound", "Adc.wickS_sound", "Adc.checkEquiv_sound", "Adc.norm_factor_series", "Adc.RSPT.energy",
+            "Adc.RSPT.amplitude", "Adc.RSPT.residual", "Adc.RSPT.expectation_value",
             "Adc.norm_factor_orders", "Adc.mem_genTermOrders", "Adc.nodup_genTermOrders", "Adc.coeff_list_prod"]
 CLASSES = {1: "ph", 2: "pphh", 3: "ppphhh", 4: "pppphhhh"}
 OCC, VIRT = "ijkl", "abcd"
